@@ -26,15 +26,10 @@ Definition ser_step (p : fparams) (r : option (list (list bool)) * fstate) : tre
       ser_floats (map (fun col => ad FN col) (cols FN s))].
 
 (* optional initial voltages (neuron-major), assigned through the `voltage` setter before the first operation *)
-Definition set_voltage (s : fstate) (v0 : list (list float)) : fstate :=
-  mkState (training FN s)
-    (map2 (fun col vs => mkCol (ad FN col) (map2 (fun (ce : cell FN) v => (v, snd ce)) (cells FN col) vs))
-          (cols FN s) v0).
-
 Definition run_case (c : Z) (p : fparams) (n b : nat) (v0 : option (list (list float))) (ops : list fop) : tree :=
   if ctor_ok FN (cls_of_Z c) p then
     let s0 := init FN (cls_of_Z c) p n b in
-    let s1 := match v0 with Some v => set_voltage s0 v | None => s0 end in
+    let s1 := match v0 with Some v => mkState (training FN s0) (set_voltage FN (cols FN s0) v) | None => s0 end in
     Nd [L 0; Nd (map (ser_step p) (run FN (cls_of_Z c) p s1 ops))]
   else Nd [L 1].   (* the constructor raises ValueError *)
 
@@ -42,6 +37,11 @@ Definition run_case (c : Z) (p : fparams) (n b : nat) (v0 : option (list (list f
 Definition Fwd (adapt : option bool) (lock : bool) (xs : list (list float)) : fop := @OpForward FN adapt lock xs.
 Definition Clr (keep : bool) : fop := @OpClear FN keep.
 Definition Trn (mode : bool) : fop := @OpTrain FN mode.
+Definition SetA (a : list (list float)) : fop := @OpSetAdapt FN a.
+Definition AddA (d : list (list float)) : fop := @OpAddAdapt FN d.
+Definition SetV (v : list (list float)) : fop := @OpSetVoltage FN v.
+Definition SetR (r : list (list float)) : fop := @OpSetRefrac FN r.
+Definition Load (v r a : list (list float)) : fop := @OpLoad FN v r a.
 Definition mkP (step_time rest_v reset_v reset_v_add reset_v_mul thresh_v refrac_t time_constant resistance
                 crit_v affinity rheobase_v sharpness : float) (tc_adaptation adapt_vc_coupling adapt_increment : list float)
   : fparams :=
